@@ -5,7 +5,21 @@ _PENDING = "check not built yet in this session; planned as solver-based per DES
 
 NOT_APPLICABLE = {("C%02d" % i): _PENDING for i in range(1, 19)}
 
+_ENGINE_NOTE = "Trusted: gosym (own SSA->SMT executor; validated per run by differential native replay of solved path models), z3 5.1.0, the sequential models of sync/atomic/context-free stubs listed in evidence.assumptions, go/ssa construction. Bounded: program length, callback nesting depth 1, stream length."
+
 META = {
+    "C02": {
+        "text": "Bounded symbolic model checking of the real checkOnce/T/customGen code: the property function is an interpreter over a symbolic opcode program, so the solver chooses the program (failure kind x callback context) as well as the data; for every program within the bound the invocation is classified as failed iff a failure signal was raised. One inductive step on the funnel every invocation goes through.",
+        "note": _ENGINE_NOTE,
+    },
+    "C10": {
+        "text": "Bounded symbolic model checking of checkOnce/T.cleanup/T.Context/customGen.maybeValue: for every symbolic program (any way of ending, nested cleanup registration, Custom callbacks) the context is live in the body and cancelled before cleanups, every cleanup runs exactly once, and nothing is left on the T.",
+        "note": _ENGINE_NOTE,
+    },
+    "C11": {
+        "text": "One inductive step on checkOnce from an arbitrary fresh T: for every symbolic program the T is clean again whenever it will be reused, and an invocation without failure signal is never classified as failing; so no history of test cases can leak state into a later one.",
+        "note": _ENGINE_NOTE,
+    },
     "C03": {
         "text": "Bounded symbolic model checking of the real generator kernels (genUintRange/genUintN*/genIntRange/... from go/ssa): for every parameter value at full 64-bit width and every buffer bitstream up to the stated length, the solver shows the returned value satisfies the contract or the draw ends in invalidData; unbounded stream lengths and the excluded generator families are outside the claim.",
         "note": "Trusted: gosym (own SSA->SMT executor, validated per run by differential native replay of solved path models), z3 5.1.0, the monotone step summary of genGeom's Log1p expression, go/ssa construction.",
